@@ -203,8 +203,12 @@ def include(ctx, module, fns, to_rule):
     """run rules of another property inside this one (shared necessary conditions): obligations are re-labelled `to_rule`, keeping the
     original rule id in the construct key and the detail text"""
     sub = Ctx(ctx.ix, module.__name__.split('.')[-1], ctx.tier)
+    errors = []
     for fn in fns:
-        fn(sub)
+        try:
+            fn(sub)
+        except AnalysisError as e_:      # what the other shared rules decide is still included
+            errors.append(e_)
     for o in sub.obligations:
         if not o.rule.startswith(to_rule.split('-')[0]):
             o.construct = o.construct.replace(o.rule, to_rule + ':' + o.rule)
@@ -217,4 +221,6 @@ def include(ctx, module, fns, to_rule):
         else:
             ctx.counters[k] += v
     ctx.notes.extend(getattr(sub, 'notes', []))
+    if errors:
+        raise errors[0]
     return sub
